@@ -64,6 +64,25 @@ CHECKS = {
     design_ref='DESIGN.md section 5 "C11"',
     note='Trusted as C01 + assumed heapq contract. Partial: nonMarkov_directed_percolate_network_with_timing / get_infected_nodes not yet covered.',
     technique='contract-based deductive verification of the handlers (loop invariant over the scheduling loop, whole-queue postconditions), z3'),
+ 'C12': dict(
+    category='proof',
+    text='discrete_SIR (all ways of passing the initial condition, with and without a recovery rule, graphs of any order): the generation loops carry '
+         'the invariant "new_infecteds = nodes susceptible at step start reached by a successful contact from an infectious node" (BFS layer recurrence; '
+         'the rule is asked with (u, v, *args) only about susceptible v), one-step infectiousness unless the recovery rule keeps the node, S+I+R=N, '
+         'unit time steps; _simple_test_transmission_ = one U01 draw compared with p; percolate_network = same nodes, symmetric sub-graph, each edge '
+         'decided by its own draw; wrappers by delegation binding. basic_discrete_SIS loop is not covered.',
+    design_ref='DESIGN.md section 5 "C12"',
+    note='Trusted as C01; M (cited): layer recurrence => BFS distance, independent Bernoulli contacts => Reed-Frost chain; the transmission rule is a function of the ordered pair within a step.',
+    technique='contract-based deductive verification: nested loop invariants over the generation step, call-back argument obligations, z3; delegation-binding analysis'),
+ 'C17': dict(
+    category='proof',
+    text='estimate_SIR_prob_size_from_dir_perc: the component used is a largest SCC (assumed networkx contract), PE*N = #{x | x reaches u}, AR*N = #{x | reachable from u} '
+         'for a node u of it, both in [0,1]; _in_component_/_out_component_ by loop invariants over the union of ancestor/descendant sets; '
+         'estimate_SIR_prob_size: both outputs = largest component of percolate_network(G,p) / N; the percolation builders produce the same node set and '
+         'edge u->v iff delay<=duration, resp. transmission(xi[u],zeta[v]), with the documented attributes - all for graphs of any order.',
+    design_ref='DESIGN.md section 5 "C17"',
+    note='Assumed networkx contracts (descendants/ancestors/SCC/connected components/add_edge adds end points); finite-cardinality lemmas instantiated; order(H)>=1; directed_percolate_network/get_infected_nodes bodies: binding only.',
+    technique='contract-based deductive verification with assumed library contracts for reachability, loop invariants, z3'),
  'C18': dict(
     category='other',
     text='Flow analyses over the real AST, for all inputs: randomness only from random/np.random and never re-seeded; no global/nonlocal/module-level mutable state; '
